@@ -1,0 +1,24 @@
+//go:build verif
+
+package redis
+
+import (
+	"io"
+	"net"
+)
+
+// VerifCmd returns the command parsed by the last ReadCommand.
+func (r *Reader) VerifCmd() Command { return r.cmd }
+
+// VerifNewConn builds a connection object over an arbitrary reader/writer pair, as
+// handleConn does for a socket.
+func VerifNewConn(rd io.Reader, wr io.Writer) *Conn {
+	return &Conn{
+		Reader:   NewReader(rd),
+		Writer:   NewWriter(wr),
+		Commands: make([]func(), 0),
+	}
+}
+
+// VerifServeConn runs the connection loop on a caller-supplied net.Conn.
+func VerifServeConn(conn net.Conn, handler HandlerFunc) { handleConn(conn, handler) }
